@@ -2,16 +2,11 @@
     observation lines.  Everything (hex, decimal, dispatch, rendering) happens in Gallina so that the
     [vm_compute] and the extracted runs execute the same definitions. *)
 From stdpp Require Import gmap strings.
+From Coq Require Import QArith.
 From RecordUpdate Require Import RecordSet.
 Import RecordSetNotations.
 From EV Require Import Base.Str Model.Value Model.Keyspace Model.Reply Model.Prog Model.Dispatch.
 Local Open Scope Z_scope.
-
-Inductive event :=
-| ECmd (conn : Z) (argv : list string)
-| EAdvance (ms : Z)
-| EDigest
-| EBad (line : string).
 
 Definition unhex_arg (h : string) : option string :=
   if String.eqb h "-" then Some "" else string_of_hex h.
@@ -25,12 +20,103 @@ Fixpoint unhex_all (l : list string) : option (list string) :=
               end
   end.
 
+(** * Parsing canonical values (the digest format), for presets *)
+Definition strip_wrap (open close : ascii) (s : string) : option string :=
+  match s with
+  | String c r =>
+      if Ascii.eqb c open then
+        match string_rev r with
+        | String c' r' => if Ascii.eqb c' close then Some (string_rev r') else None
+        | EmptyString => None
+        end
+      else None
+  | EmptyString => None
+  end.
+
+Definition split_commas (s : string) : list string :=
+  if String.eqb s "" then [] else split_on ","%char "" s.
+
+Definition parse_Q (s : string) : option Q :=
+  match split_on "/"%char "" s with
+  | [p; q] => match parse_int p, parse_nat q with
+              | Some p', Some q' => if 0 <? q' then Some (Qred (Qmake p' (Z.to_pos q'))) else None
+              | _, _ => None
+              end
+  | _ => None
+  end.
+Definition parse_fl (s : string) : option fl :=
+  if String.eqb s "inf" then Some FPInf else if String.eqb s "-inf" then Some FNInf
+  else FFin <$> parse_Q s.
+
+Definition parse_scalar (s : string) : option scalar :=
+  match s with
+  | String "s"%char r => SStr <$> unhex_arg r
+  | String "i"%char r => SInt <$> parse_int r
+  | String "f"%char r => SFloat <$> parse_fl r
+  | _ => None
+  end.
+
+Fixpoint sequence_opt {A} (l : list (option A)) : option (list A) :=
+  match l with
+  | [] => Some []
+  | Some x :: r => match sequence_opt r with Some r' => Some (x :: r') | None => None end
+  | None :: _ => None
+  end.
+
+Definition parse_pair {A} (f : string -> option A) (s : string) : option (string * A) :=
+  match split_on ":"%char "" s with
+  | [k; v] => match unhex_arg k, f v with
+              | Some k', Some v' => Some (k', v')
+              | _, _ => None
+              end
+  | _ => None
+  end.
+
+Definition unhex_elem (h : string) : option string := unhex_arg h.
+
+Definition parse_value (s : string) : option value :=
+  match s with
+  | String "l"%char r =>
+      match strip_wrap "["%char "]"%char r with
+      | Some body => VList <$> sequence_opt (map unhex_elem (split_commas body))
+      | None => None
+      end
+  | String "h"%char r =>
+      match strip_wrap "{"%char "}"%char r with
+      | Some body => (fun l => VHash (list_to_map l)) <$> sequence_opt (map (parse_pair parse_scalar) (split_commas body))
+      | None => None
+      end
+  | String "S"%char r =>
+      match strip_wrap "{"%char "}"%char r with
+      | Some body => (fun l => VSet (list_to_set l)) <$> sequence_opt (map unhex_elem (split_commas body))
+      | None => None
+      end
+  | String "z"%char r =>
+      match strip_wrap "{"%char "}"%char r with
+      | Some body => (fun l => VZSet (list_to_map l)) <$> sequence_opt (map (parse_pair parse_fl) (split_commas body))
+      | None => None
+      end
+  | _ => VScal <$> parse_scalar s
+  end.
+
+Inductive event :=
+| EPreset (db : Z) (key : string) (v : value) (dl : Z)
+| ECmd (conn : Z) (argv : list string)
+| EAdvance (ms : Z)
+| EDigest
+| EBad (line : string).
+
 Definition parse_event (line : string) : option event :=
   match split_words line with
   | "C" :: c :: args =>
       match parse_int c, unhex_all args with
       | Some c', Some argv => Some (ECmd c' argv)
       | _, _ => Some (EBad line)
+      end
+  | ["P"; db; hk; v; dl] =>
+      match parse_int db, unhex_arg hk, parse_value v, parse_int dl with
+      | Some db', Some k, Some v', Some dl' => Some (EPreset db' k v' dl')
+      | _, _, _, _ => Some (EBad line)
       end
   | ["A"; ms] => match parse_int ms with Some z => Some (EAdvance z) | None => Some (EBad line) end
   | ["G"] => Some EDigest
@@ -61,6 +147,11 @@ Definition default_now : Z := 1700000000000.
 
 Definition step_event (w : world) (e : event) : world * list string :=
   match e with
+  | EPreset db k v dl =>
+      (* as the suite's presetKeyData: setValues, then setExpiry when a deadline is given *)
+      let '(s1, _) := set_values (w_st w) db [(k, v)] in
+      let s2 := if dl =? 0 then s1 else set_expiry s1 db k (Some dl) in
+      (w <| w_st := s2 |>, [])
   | ECmd c argv => let '(w', r) := exec_cmd w c argv in (w', ["R " +:+ show_reply r])
   | EAdvance ms => (w <| w_st := (w_st w) <| st_now := st_now (w_st w) + ms |> |>, [])
   | EDigest => (w, ["G " +:+ show_state (w_st w)])
